@@ -297,8 +297,8 @@ func (e *Expression) Evaluate(dataContext IDataContext, memory *WorkingMemory) (
 		if err == nil {
 			e.Value = val
 			if e.Negated {
-				if e.Value.Kind() == reflect.Bool {
-					e.Value = reflect.ValueOf(!e.Value.Bool())
+				if operand := pkg.GetValueElem(e.Value); operand.Kind() == reflect.Bool {
+					e.Value = reflect.ValueOf(!operand.Bool())
 				} else {
 					AstLog.Warnf("Expression \"%s\" is a negation to non boolean value, negation is ignored.", e.SingleExpression.GrlText)
 				}
